@@ -70,6 +70,13 @@ total!(c04_total_string, String, 6, 9);
 //@ tier=thorough class=core cap=900 bounds="every byte string 0..=6 as PairMap<2> (deserialize_map)"
 total!(c04_total_map, PairMap<2>, 6, 9);
 
+#[derive(Deserialize)]
+struct BytesT<'a>(#[serde(with = "crate::types::bytes_as_bytes")] &'a [u8]);
+//@ tier=quick class=core cap=900 bounds="every byte string 0..=12 as a byte array: length prefixes up to usize::MAX (10-byte varints) against the raw-pointer bounds check"
+total!(c04_total_bytes12, BytesT, 12, 15);
+//@ tier=thorough class=core cap=1800 bounds="every byte string 0..=11 as &str: length prefixes up to usize::MAX"
+total!(c04_total_str11, &str, 11, 14);
+
 /// zero-width elements: claimed length bounded by L (the property excludes them from the allocation
 /// clause; a claimed length of 2^64 would loop that often by construction of serde's visitors).
 #[kani::proof]
@@ -315,4 +322,27 @@ fn c04_reader_scratch_in_bounds() {
     }
     kani::cover!(matches!(&r, Ok((v, _)) if v.1.len() == 1 && v.2.len() == 1), "two borrowed fields share the scratch");
     kani::cover!(r.is_err() && slen == 0, "too-small scratch rejected");
+}
+
+static CRC32: crc::Crc<u32> = crc::Crc::<u32>::new(&crc::CRC_32_ISCSI);
+static CRC8: crc::Crc<u8> = crc::Crc::<u8>::new(&crc::CRC_8_SMBUS);
+
+#[kani::proof]
+#[kani::unwind(13)]
+//@ tier=quick class=core cap=600 bounds="CRC-checked decoding (widths 8 and 32): every byte string 0..=7 as a sequence probe: size_hint never panics and never exceeds the bytes remaining"
+fn c04_size_hint_crc_flavor() {
+    let a: [u8; 7] = kani::any();
+    let n: usize = kani::any();
+    kani::assume(n <= 7);
+    let s = &a[..n];
+    let r = postcard::from_bytes_crc32::<HintProbe>(s, CRC32.digest());
+    if let Ok(HintProbe(Some(h))) = &r {
+        assert!(*h <= n, "size_hint exceeds the input length");
+    }
+    let r8 = postcard::de_flavors::crc::from_bytes_u8::<HintProbe>(s, CRC8.digest());
+    if let Ok(HintProbe(Some(h))) = &r8 {
+        assert!(*h <= n, "size_hint exceeds the input length");
+    }
+    kani::cover!(r.is_ok() || r8.is_ok(), "some frame passes the CRC");
+    kani::cover!(n == 1, "fewer bytes than the checksum width reachable");
 }
